@@ -36,6 +36,26 @@ def classify(case, detail):
     return None
 
 
+def _batch(chk, cmd, model, tag, timeout=1200):
+    """run_batch, but a harness that dies (a panic inside a fetch goroutine of the resolver cannot be recovered
+    by the harness) is a spec failure of the run named by the breadcrumb file, not a tool failure."""
+    nv = len(chk.violations)
+    b = vlib.run_batch(chk, cmd, model, tag, timeout=timeout)
+    if b is None and len(chk.violations) > nv and chk.violations[-1]["kind"].endswith("/harness-run"):
+        v = chk.violations[-1]
+        crumb = os.path.join(chk.work, tag + ".cases.current")
+        if "panic:" in v["detail"] or "fatal error:" in v["detail"]:
+            where = open(crumb).read().rstrip("\n") if os.path.exists(crumb) else ""
+            m = re.search(r"(panic: .*|fatal error: .*)", v["detail"])
+            first = m.group(1)[:200] if m else ""
+            frames = re.findall(r"resolve\.\(\*Loader\)\.\w+|resolve\.\w+", v["detail"])
+            chk.violations[-1] = {"kind": "spec:valid_response", "found_input": True, "key": None,
+                                  "detail": "valid_response the resolver crashed the process (no response at all): %s in %s; corpus line: %s"
+                                            % (first, ", ".join(frames[:3]), where),
+                                  "case": {"corpus_line": where, "replay": "harness/bin/c07 show -seed S -idx I -faults F"}}
+    return b
+
+
 def _fold(chk, state, b, totals):
     vlib.digest_batch(chk, b[0], b[1], classify, state)
     for (ln, status, detail) in b[1]:
@@ -78,11 +98,11 @@ def run(chk, extra_corpus=None):
     model = os.path.join(vlib.BIN, "model_c07")
     state, totals, samples = {}, {"nt": 0, "runs": 0}, []
     corpus = extra_corpus or os.path.join(vlib.ROOT, "corpus", "C07", "cases.tsv")
-    b = vlib.run_batch(chk, "%s corpus -in %s -out {out}" % (exe, corpus), model, "corpus")
+    b = _batch(chk, "%s corpus -in %s -out {out}" % (exe, corpus), model, "corpus")
     if b:
         _fold(chk, state, b, totals)
         samples += [c[:600] for c in b[0][:1]]
-    b = vlib.run_batch(chk, "%s gen -seed %d -n %d -tier %s -out {out}" % (exe, chk.seed, n, chk.tier), model, "gen", timeout=3000)
+    b = _batch(chk, "%s gen -seed %d -n %d -tier %s -out {out}" % (exe, chk.seed, n, chk.tier), model, "gen", timeout=3000)
     if b:
         _fold(chk, state, b, totals)
         samples += [c[:600] for c in b[0][:3]]
@@ -103,7 +123,7 @@ def run(chk, extra_corpus=None):
 
     def more(st):
         for k in range(1, 4):
-            bb = vlib.run_batch(chk, "%s gen -seed %d -n %d -tier %s -out {out}" % (exe, chk.seed * 1000 + k, n * 2, chk.tier), model, "more%d" % k, timeout=3000)
+            bb = _batch(chk, "%s gen -seed %d -n %d -tier %s -out {out}" % (exe, chk.seed * 1000 + k, n * 2, chk.tier), model, "more%d" % k, timeout=3000)
             if bb:
                 _fold(chk, st, bb, totals)
             if any(kk is None for (kk, _, _) in st.get("specfail", [])):
@@ -120,6 +140,12 @@ def replay(chk, path):
     r = json.load(open(path))
     case = r.get("case")
     chk.log("replay: %s" % (str(case)[:300]))
+    if isinstance(case, dict) and case.get("corpus_line"):
+        p = os.path.join(chk.work, "replay.tsv")
+        with open(p, "w") as f:
+            f.write(case["corpus_line"] + "\n")
+        run(chk, extra_corpus=p)
+        return
     m = re.search(r"\(meta (\d+) (\d+) ", str(case))
     d = re.search(r"faults=\[([^\]]*)\]", r.get("detail", ""))
     if m:
